@@ -356,3 +356,26 @@ Fixpoint bad_from (n : nat) (cases : list case) : list nat :=
   | [] => []
   | c :: r => if case_ok c then bad_from (S n) r else n :: bad_from (S n) r
   end.
+
+(** coarse comparison, used for runs scheduled at EVERY-opcode granularity:
+    same access at every step, same sequence of callbacks / monitor exit /
+    close result overall, same final set (the step to which an event is
+    attributed may differ by frame-local instructions) *)
+Definition strip (o : out) : out := match o with OAcc a _ => OAcc a [] | x => x end.
+Definition key_events (os : list out) : list event :=
+  flat_map (fun o => match o with
+                     | OAcc _ e => filter (fun ev => match ev with EvRegistered _ => false | _ => true end) e
+                     | _ => [] end) os.
+
+Definition case_ok_coarse (c : case) : bool :=
+  let '(rs, ls, os, fin) := c in
+  let '(s, os') := run_from (fun t => mem t rs) init ls in
+  list_eqb out_eqb (map strip os') (map strip os) &&
+  list_eqb event_eqb (key_events os') (key_events os) &&
+  list_eqb Nat.eqb (obj (heap s) (active s)) fin.
+
+Fixpoint bad_from_coarse (n : nat) (cases : list case) : list nat :=
+  match cases with
+  | [] => []
+  | c :: r => if case_ok_coarse c then bad_from_coarse (S n) r else n :: bad_from_coarse (S n) r
+  end.
